@@ -9,6 +9,7 @@ IA = "tola.assembly.indexed_assembly"
 FR = "tola.assembly.fragment"
 SC = "tola.assembly.scaffold"
 OR = "tola.assembly.overlap_result"
+FM = "tola.assembly.format"
 FO = IA + ".IndexedAssembly.find_overlaps"
 
 MUTANTS = [
@@ -62,4 +63,12 @@ MUTANTS = [
     ("C18", OR + ".OverlapResult.overhang_if_end_removed", OR, "for r in self.rows[-2::-1]:", "for r in self.rows[-1::-1]:"),
     ("C18", OR + ".OverlapResult.fragment_start_if_trimmed", OR, "return frag.start + self.end_overhang", "return frag.start + self.start_overhang"),
     ("C02", OR + ".OverlapResult.to_scaffold", OR, "if self.bait.strand == -1:", "if self.bait.strand == 1:"),
+    # C06
+    ("C06", FM + ".format_agp", FM, "            p += row.length\n", "            pass\n"),
+    ("C06", FM + ".format_agp", FM, "str(i + 1),", "str(i),"),
+    ("C06", FM + ".format_agp", FM, '"U",', '"N",'),
+    ("C06", FM + ".format_agp", FM, "str(row.start),\n                        str(row.end),", "str(row.end),\n                        str(row.start),"),
+    ("C06", FM + ".format_agp", FM, 'STRAND_STR = "?", "+", "-"', 'STRAND_STR = "+", "?", "-"'),
+    ("C06", FM + ".format_agp", FM, "str(p + row.length),", "str(p + row.length - 1),"),
+    ("C06", FM + ".format_agp", FM, '            file.write("\\n")\n\n\ndef format_tpf', '            pass\n\n\ndef format_tpf'),
 ]
